@@ -127,8 +127,14 @@ func (r *Recorder) Case(key uint64, nontrivial bool, classes ...string) {
 			r.classes[c]++
 		}
 	}
+	flush := autoFlush && r.evals%4000 == 0
 	r.mu.Unlock()
+	if flush {
+		FlushAll() // fuzz workers are killed without running cleanups
+	}
 }
+
+var autoFlush = os.Getenv("VERIF_STATS_AUTOFLUSH") != ""
 
 // Enumerated records n cases of a complete enumeration: each is evaluated once
 // and is distinct from every other by construction of the enumerating loops
